@@ -257,6 +257,14 @@ impl GrammarBuilder {
 
         for rule in rules {
             self.check_identifier(&rule.name)?;
+            if ["EMPTY", "AUG", "AUGL"].contains(&rule.name.as_ref().as_str()) {
+                // Productions would be appended to the builder's own non-terminal.
+                err!(
+                    format!("'{}' is a reserved name.", &rule.name),
+                    Some(self.file.clone()),
+                    rule.name.span
+                )?
+            }
             if self.terminals.contains_key(rule.name.as_ref()) {
                 // All references would be resolved to the terminal.
                 err!(
